@@ -50,6 +50,7 @@ def build(timeout=3600):
         import fcntl
         d, n = os.environ["VERIF_BUILD_SLOTS"].rsplit(":", 1)
         os.makedirs(d, exist_ok=True)
+        n = min(int(n), 2)
         k = int(os.environ.get("VERIF_BUILD_SLOT", "0")) % int(n)
         slot = open(os.path.join(d, "slot%d" % k), "w")
         fcntl.flock(slot, fcntl.LOCK_EX)
@@ -163,7 +164,28 @@ def run_harness(h, workdir, timeout=600, trace=False):
     launch = cmd
     if os.environ.get("VERIF_CBMC_MEM_GB"):
         launch = ["bash", "-c", "ulimit -v %d; exec \"$@\"" % (int(os.environ["VERIF_CBMC_MEM_GB"]) << 20), "cbmc-limited"] + cmd
+    gate = None
+    if os.environ.get("VERIF_BUILD_SLOTS"):
+        # development only: a machine-wide bound on concurrent CBMC processes (several GB each)
+        import fcntl, random
+        d = os.environ["VERIF_BUILD_SLOTS"].rsplit(":", 1)[0]
+        nslots = 5
+        order = list(range(nslots))
+        random.shuffle(order)
+        while gate is None:
+            for k in order:
+                f = open(os.path.join(d, "cbmc%d" % k), "w")
+                try:
+                    fcntl.flock(f, fcntl.LOCK_EX | fcntl.LOCK_NB)
+                    gate = f
+                    break
+                except OSError:
+                    f.close()
+            if gate is None:
+                time.sleep(2)
     rc, so, se, secs = run(launch, timeout=timeout)
+    if gate is not None:
+        gate.close()
     res = dict(harness=name, seconds=time.time() - t0, cbmc_seconds=secs, cbmc_cmd=" ".join(cmd), checks=[],
                unwind=uw, stubs=(h.get("attributes") or {}).get("stubs") or [])
     try:
